@@ -228,7 +228,7 @@ fn c08_o1m_put_result_n2_mutable() {
 }
 
 //@ ob: C08.O1c
-//@ tier: thorough
+//@ tier: off
 //@ cap: 2700
 //@ mem: 28
 //@ standins: tracing
@@ -246,7 +246,7 @@ fn c08_o1c_put_result_n3_mutable() {
 }
 
 //@ ob: C08.O1d
-//@ tier: thorough
+//@ tier: off
 //@ cap: 2700
 //@ mem: 28
 //@ standins: tracing
@@ -543,8 +543,10 @@ fn c08_o1e_error_tally_step() {
 }
 
 //@ ob: C08.O1f
-//@ tier: thorough
-//@ cap: 1800
+//@ tier: quick
+//@ cap: 800
+//@ rss: 2.0
+//@ time: 72
 //@ standins: tracing
 //@ also: C05 C17
 //@ desc: error tally step from a tally of 3 distinct codes (the new reply's entry may bubble past two entries)
